@@ -10,5 +10,5 @@ def run(ctx):
         ctx, "C07", kinds=KINDS, maxsubs=2 if ctx.seed % 2 == 0 else 3, p2p=True, root=True, special=True, chan=True,
         want=["-", "N", "JR", "JRS", "JRA", "JRASO", "JRWPASD", "RWP"], given=["-", "N", "JR", "RWP", "JRS", "JRAS", "JRASO", "JRWPASD"], maxseq=0,
         u1_quick={"want": ["-", "N", "JRS", "JRA"], "given": ["-", "N", "JRS", "JRA"], "kinds": BASE, "nusers": 3},
-        u1_thorough={"want": ["-", "N", "JRS", "JRA", "JRASO"], "given": ["-", "N", "JRS", "JRASO"], "kinds": BASE},   # 87k distinct / 4.3M generated, ~1-3 min
+        u1_thorough={"want": ["-", "N", "JRS", "JRA", "JRASO"], "given": ["-", "N", "JRS", "JRASO"], "kinds": BASE, "nusers": 3},   # 87k distinct / 4.3M generated, ~1-3 min
         sim_quick={"num": 150, "depth": 12}, sim_thorough={"num": 1500, "depth": 16})
